@@ -68,6 +68,10 @@ def params_surface(pts, nu, nv, centripetal):
     for u in range(nu):
         row = params_curve([pts[v + nv * u] for v in range(nv)], centripetal)
         vl = [a + b / nu for a, b in zip(vl, row)]
+    # the averages of 0 and of 1 are exactly 0 and 1; keep float summation noise out of the parameter domain
+    uk = [min(1.0, max(0.0, x)) for x in uk]
+    vl = [min(1.0, max(0.0, x)) for x in vl]
+    uk[0], uk[-1], vl[0], vl[-1] = 0.0, 1.0, 0.0, 1.0
     return uk, vl
 
 
